@@ -49,7 +49,8 @@ RULE = ("resource tables built by 0..12 coap_add_resource/coap_delete_resource c
         "coap_add_attr / coap_resource_set_get_observable on registered (sometimes unregistered) paths, re-registration, deletion, "
         "interleaved with complete block-wise GETs - mostly unfiltered, repeated on the same session, SZX 0..6 - and "
         "coap_print_wellknown calls) and match() on short strings over {a,b,SP}; "
-        "non-trivial = distinct input whose listing is non-empty")
+        "non-trivial = distinct input whose listing is non-empty"
+        " + op wkev: event sequences {GET block k of /.well-known/core with query / Request-Tag / SZX from several sessions, table changes, lg_xmit timeouts}: responses grouped by ETag must reassemble to the listing of the table at that ETag's block 0")
 TRUSTED_BASE = ["Lean 4.33 kernel; axioms allowed: propext, Classical.choice, Quot.sound (audited per theorem each run)",
                 "harness/linkfmt.c + generator + field-wise comparison in props/C20.py",
                 "M (CoapVerif/Model/LinkFormat.lean) is a hand transcription of the PRINT_* macros, coap_print_link, match(), "
